@@ -19,7 +19,7 @@ def plan(tier, seed):
                    ["api.ParquetFile.remove_row_groups", "api.ParquetFile.statistics", "api.statistics"]))
     # sorted_partitioned_columns(filters=...) pairs the per-row-group bounds with the index list of the surviving row
     # groups: that list is increasing and free of repeats for every filter program
-    for h in ("h_row_groups_or2", "h_row_groups_or3"):
+    for h in ("h_row_groups_or2", "h_row_groups_or3", "h_stats_b_without_bounds", "h_stats_two_clauses"):
         jobs.append(ch("C04", "vf/pyshim/h_c05.py", h, 160 if tier == "quick" else 600,
                        ["api.filter_row_groups (as_idx)", "api.filter_out_stats", "api.filter_out_cats"],
                        env=dict(VERIF_SLEN=1)))
